@@ -4,8 +4,8 @@ SPEC = {
     "id": "C09",
     "level": "other",
     "sidecars": ["trie_dict", "hostname_trie_set"],
-    "functions": [T + "__init__", T + "set_and_prune_if_shorter", T + "longest_matching_prefix_value", T + "__len__",
-                  H + "__init__", H + "add", H + "match", H + "__len__"],
+    "functions": [T + "__init__", T + "set_and_prune_if_shorter", T + "longest_matching_prefix_value", T + "__len__", T + "prefixes",
+                  H + "__init__", H + "add", H + "match", H + "__len__", H + "__iter__"],
     "lemma_modules": ["props.C09_lemmas"],
     "bounded": ["bcheck.c09"],
     "explanation": (
@@ -17,7 +17,9 @@ SPEC = {
         "True. match(url) == exists added key that is a prefix of tok(hostname(url)), False when the URL has no hostname. Lemmas over the "
         "contracts: V = minimal elements of A (so len = number of minimal added hostnames), stored-prefix <=> added-prefix, adds commute "
         "(order independence), whole-label semantics of prefixes. Assumed and only checked bounded: tokenize_hostname (strip, lower-case, "
-        "per-label punycode decoding, reversal) as an uninterpreted function tok(h), urlsplit, and __iter__/prefixes (stack traversal)."),
+        "per-label punycode decoding, reversal) as an uninterpreted function tok(h), urlsplit and join_hostname. "
+        "Iteration: TrieDict.prefixes is proved to yield every stored key exactly once (ghost coverage witnesses, see C10) and "
+        "HostnameTrieSet.__iter__ to yield join_hostname(p) for exactly these keys, one per stored key = per minimal added hostname."),
     "assumptions": [
         "tokenize_hostname(h) is a function of h (assumed contract, bounded-checked): equal hostnames up to case / punycode have equal token lists, a whole-label subdomain extends the parent's token list",
         "urllib.parse.urlsplit either raises ValueError or returns a record (.hostname : Opt[str]); ValueError propagates out of match (recorded under C19 findings)",
